@@ -37,7 +37,7 @@ func writePo(path string, entries map[string]string) {
 // through the key domains of the default language, default text -> translation through the "default"
 // domain of the session's language. Code and external functions go through the embedded MenuResource.
 func NewPoRes(a *App, env *Env, dir string) resource.Resource {
-	def, _ := lang.LanguageFromCode("eng")
+	def, _ := lang.LanguageFromCode("deu") // the catalogue language of the untranslated texts: none of the languages the applications switch to
 	tpl, menu := map[string]string{}, map[string]string{}
 	trans := map[string]map[string]string{}
 	for name, n := range a.Nodes {
